@@ -128,6 +128,10 @@ def instances(tier, seed):
     for o in OPTIONS:
         yield 'h_wire', dict(shape=[[1, 2], [], []], opts=o, twins=[[1, 2]])
     yield 'h_wire', dict(shape=[[1, 2], [3], [4], [], []], opts=OPTIONS[3], twins=[[3, 4], [1, 2]])
+    for o in (OPTIONS[0], OPTIONS[5]):
+        yield 'h_wire', dict(shape=[[1, 2], [], [3], []], opts=o, twins=[[1, 3]])     # root -> [X1, P], P -> [X2]
+        yield 'h_wire', dict(shape=[[1, 2], [3], [], []], opts=o, twins=[[2, 3]])     # root -> [P, X1], P -> [X2]
+        yield 'h_wire', dict(shape=[[1, 2, 3], [], [4], [4], []], opts=o, twins=[[1, 4]])
     for ex, m in (('mproof_ord_pruned', 1), ('mproof_ord_pruned', 3), ('mupd', 1), ('library', 1), ('ord_over_two_pruned', 5)):
         for o in (OPTIONS[0], OPTIONS[5]) if tier == 'quick' else OPTIONS:
             yield 'h_wire', dict(exotic=ex, m=m, opts=o)
